@@ -521,7 +521,7 @@ class Bench:
             if f is not None and len(fbody) >= 16 and f[3] == fbody:
                 v.append((f"same-ciphertext|{tag}", f"{where}: the faulty body was re-emitted unchanged on "
                           f"{d.src[0]}->{d.dst[0]}"))
-        v.extend(self.loop_exceptions(tag, f"{fclass}|{leg}"))
+        v.extend(self.loop_exceptions(tag, "fault"))
         outcome = "accepted-intact(relay_early byte)" if (lenient and n1) else f"dropped-after-{len(new)}-hops"
         # the untouched original still arrives
         w.deliver_datagram(held)
@@ -533,7 +533,7 @@ class Bench:
         if n2 != want:
             v.append((f"after-fault:original-lost|{tag}", f"{where}: after the faulty datagram the untouched original "
                       f"completed the flow {n2 - n1} more time(s), expected once"))
-        v.extend(self.loop_exceptions(tag, f"after-{fclass}|{leg}"))
+        v.extend(self.loop_exceptions(tag, "after-fault"))
         return v, outcome
 
 
@@ -772,7 +772,8 @@ def run(ctx: core.Ctx) -> core.Report:
                 "originator (C) through the same nodes, five kinds of foreign cells, reflection to the sender, replay "
                 "on another link; distinct_nontrivial = distinct (hops, flow, leg, link, fault class, outcome) tuples "
                 "where outcome is delivered-N / dropped-after-N-hops / accepted-intact(relay_early byte)",
-        "samples": [s for r in res[:2] for s in r["samples"]][:3] or [{"groups": len(gs)}],
+        "samples": [{"bench_hops": h, "first_group": g[0], "groups_in_bench": len(g)} for h, g in items[:2]]
+                   + [{"case": [g[1], g[2], g[3], g[4], g[5], f]} for g in (gs[0], gs[-1]) for f in expand(g, ctx.thorough)[:2]],
         "exhaustive": aborted == 0,
         "groups_aborted_after_violations": aborted,
         "hops": [1, 2, 3],
